@@ -371,9 +371,9 @@ func genBlock(rng *RNG, depth int) string {
 	case 0, 1, 2:
 		return genInline(rng) + "\n"
 	case 3:
-		return strings.Repeat("#", 1+rng.Intn(6)) + " " + strings.ReplaceAll(genInline(rng), "\n", " ") + []string{"", " #", " ##  ", " {#hid .c}", " {a=b}", " {id=5}", " {id=true x=[1,2]}", " {a={b=c} id=\"q\"}", " {.c id=-1.5e3}", " " + genAttrBlock(rng), " ## " + genAttrBlock(rng), " " + genAttrBlock(rng)}[rng.Intn(12)] + "\n"
+		return strings.Repeat("#", 1+rng.Intn(6)) + " " + strings.ReplaceAll(genInline(rng), "\n", " ") + []string{"", " #", " ##  ", " {#hid .c}", " {a=b}", " {id=5}", " {id=true x=[1,2]}", " {a={b=c} id=\"q\"}", " {.c id=-1.5e3}", " " + genDocAttrBlock(rng), " ## " + genDocAttrBlock(rng), " " + genDocAttrBlock(rng)}[rng.Intn(12)] + "\n"
 	case 4:
-		return strings.ReplaceAll(genInline(rng), "\n", " ") + []string{"", "", " " + genAttrBlock(rng)}[rng.Intn(3)] + "\n" + []string{"===", "---", "=", "-"}[rng.Intn(4)] + "\n"
+		return strings.ReplaceAll(genInline(rng), "\n", " ") + []string{"", "", " " + genDocAttrBlock(rng)}[rng.Intn(3)] + "\n" + []string{"===", "---", "=", "-"}[rng.Intn(4)] + "\n"
 	case 5:
 		return []string{"***", "---", "___", " * * *", "- - -"}[rng.Intn(5)] + "\n"
 	case 6:
@@ -572,10 +572,10 @@ func releaseMarkdown(c Cfg, m goldmark.Markdown) {
 }
 
 
-// genAttrBlock: one attribute block of the parser's attribute syntax (parser/attribute.go): 1-4 items out of #id,
+// genDocAttrBlock: one attribute block of the parser's attribute syntax (parser/attribute.go): 1-4 items out of #id,
 // .class, key=value with keys in every letter case (class / id / allowed / unknown names) and values of every kind
 // the value parser knows (bare word, quoted with escapes, number, bool, null, array, nested object, empty).
-func genAttrBlock(rng *RNG) string {
+func genDocAttrBlock(rng *RNG) string {
 	keys := []string{"class", "Class", "CLASS", "cLaSs", "id", "ID", "Id", "title", "Title", "lang", "style", "data-x", "DATA-y", "onclick", "x", "a.b", "a:b", "_u", "k-1"}
 	vals := []string{"v", "\"q r\"", "\"e\\\"s\\\\c\"", "\"\"", "1", "-1.5e3", "0x10", "true", "false", "null", "[1,\"x\"]", "[]", "[[1],2]", "{b=c}", "{}", "\"<&>\"", "\"tab\\ty\"", "é"}
 	n := 1 + rng.Intn(4)
